@@ -144,7 +144,7 @@ Definition name_content (n : aname) : bytes := flat_map rdn_enc n.
 Definition name_enc (n : aname) : bytes := tlv_enc 48 (name_content n).
 
 (* the content octets are valid for the string type (X.680 41; PrintableString with the two extra
-   characters both Go libraries admit; BMPString a whole number of 16-bit units) *)
+   characters both Go libraries accept; BMPString a whole number of 16-bit units) *)
 Definition str_ok (s : astr) : bool :=
   let (t, c) := s in
   if t =? 19 then forallb MD.is_printable c
